@@ -160,7 +160,7 @@ def run_conn(exe, seed, drv_model=None):
     diffs, plans = [], []
     fails, stats = [], {"connect_call_cases": 0, "connectgc_cases": 0, "connectgc_not_applicable": 0, "accept_bursts": 0, "connections": 0, "max_burst": 0}
     try:
-        rc, out, err = run_cmd([exe, os.path.join(VERIF, "harness/C16/conn.janet"), d, str(seed)], timeout=240,
+        rc, out, err = run_cmd([exe, os.path.join(VERIF, "harness/C16/conn.janet"), d, str(seed)], timeout=420,
                                env=dict(ENV, C16_BACKSTOP_MS="60000"), cwd=d)
         text = out.decode(errors="replace")
         n = 0
